@@ -17,10 +17,26 @@ def _spam_ops(c):
     return {"thr": c[1], "unban": c[2], "interval": c[3], "rulesNil": c[4], "nexc": ne, "rthr": rthr}, ops
 
 
+def _spam_answers(i):
+    """(IsSpam answers, number of maintenance rounds, negative counter seen) of a c20.spam result"""
+    ans, rounds, neg, k = [], 0, False, 0
+    while k < len(i):
+        t = i[k]
+        if t in ("B", "A", "D"):
+            n = int(i[k + 1])
+            if t == "B": rounds += 1
+            neg = neg or any(x.startswith("-") for x in i[k + 3:k + 2 + 2 * n:2])
+            k += 2 + 2 * n
+        else:
+            ans.append(t); k += 1
+    return ans, rounds, neg
+
+
 def c20_nontrivial(c, i):
     if c[0] == "c20.spam":
         # some IsSpam call answered true and some maintenance round ran
-        return "1" in i and "B" in i
+        ans, rounds, _ = _spam_answers(i)
+        return "1" in ans and rounds > 0
     if c[0] == "c20.in":
         return "d" in i and "r" in i
     return False
@@ -44,9 +60,9 @@ def c20_classify(c, i):
             ids = {o[1] for o in ops if o[0] == "e"}
             out.append("spam.sources=" + str(len(ids)))
             if any(o[0] == "e" and o[3] == "1" for o in ops): out.append("spam.isNew")
-            if "1" in i: out.append("spam.some-true")
-            if any(t not in ("0", "1", "B", "A", "D") and not t.isdigit() and t.startswith("-") for t in i):
-                out.append("spam.negative-counter")
+            ans, rounds, neg = _spam_answers(i)
+            if "1" in ans: out.append("spam.some-true")
+            if neg: out.append("spam.negative-counter")
             if any("1" in o[7] for o in ops if o[0] == "e" and o[7] != "-"): out.append("spam.exception-hit")
             if any("1" in o[8] for o in ops if o[0] == "e" and o[8] != "-"): out.append("spam.rule-hit")
         elif c[0] == "c20.in":
